@@ -35,7 +35,7 @@ STUB = ["choice of the running scenario thread (baton scheduler, line events in 
 ASSUMPTIONS = ["population changes in the two round hooks, plus deletions from inside act of the acting agent itself or of an agent created before it (both have already acted), and creations from inside act: the newcomer is a live agent and is expected to handle and act last in that very step, as the pinned tree does",
                "harness subclasses (models/abm_agents.py) run atomically between pre-emption points"]
 FAULT_KINDS = ["preemption", "population_change_in_hook", "agent_deleted_inside_act"]
-PROBES = ["unhandled_event_in_front_of_a_handled_one", "session_over_abm_managers", "session_over_several_abm_managers", "progress_widget", "model_run_again_with_other_run_spec", "deletion_inside_act", "creation_inside_act", "zero_stop_time", "negative_start", "decimal_dt", "empty_population", "collect_off", "threads_interleaved", "driven_steps"]
+PROBES = ["class_path_manager_under_schedules", "unhandled_event_in_front_of_a_handled_one", "session_over_abm_managers", "session_over_several_abm_managers", "progress_widget", "model_run_again_with_other_run_spec", "deletion_inside_act", "creation_inside_act", "zero_stop_time", "negative_start", "decimal_dt", "empty_population", "collect_off", "threads_interleaved", "driven_steps"]
 EXHAUSTIVE = {"quick": False, "thorough": False}
 
 
@@ -97,7 +97,8 @@ def generate(spec):
             scs[0]["second"] = {"start": s2, "stop": s2 + rng.choice([0, 1, 2]), "dt": d2, "collect": rng.random() < 0.5}
     # with the progress widget (Model.run(show_progress_widget=True) / run_scenarios(progress_bar=True)) a run is the same run
     widget = mode in ("run", "run_twice", "bptk_threads") and rng.random() < 0.3
-    return {"property": PROPERTY, "mode": mode, "collect": collect, "scenarios": scs, "sched": sched, "widget": widget}
+    return {"property": PROPERTY, "mode": mode, "collect": collect, "scenarios": scs, "sched": sched, "widget": widget,
+            "class_path": mode == "bptk_threads" and rng.random() < 0.5}
 
 
 def _cmp(res, name, got, exp, extra):
@@ -300,7 +301,11 @@ def execute(case):
         nsteps = (sc["stop"] - sc["start"] + 1) * spr
         res.nontrivial = nsteps >= 2 and (sc["dt"] != 1.0 or bool(sc["pop"]))
     else:
-        b, models = W.build_bptk(scs)
+        # (half of these managers name their model class in dot notation - one instantiation per scenario - instead of
+        #  handing over a model object that is deep-copied)
+        b, models = W.build_bptk(scs, class_path=bool(case.get("class_path")))
+        if case.get("class_path"):
+            res.probe("class_path_manager_under_schedules")
         names = ["s%d" % n for n in range(len(scs))]
         pol = make_policy(case.get("sched") or {"kind": "default"})
         sched = Scheduler(pol, TRACE, log=log, critical_funcs=CRITICAL)
@@ -328,10 +333,17 @@ def execute(case):
         if not sched.thread_excs and not res.violations:
             for n, (sc, m) in enumerate(zip(scs, models)):
                 exp = W.expected_calls(sc, True)
-                if not _cmp(res, names[n], m.world.calls, exp, {"mode": mode, "dt": sc["dt"], "start": sc["start"], "stop": sc["stop"]}):
+                want_times = sorted({c_[1] for c_ in exp if c_[0] == "collect"})
+                got_calls = m.world.calls
+                if case.get("class_path"):
+                    # (a model the manager instantiates itself gets the package's own collector, which does not log its calls;
+                    #  what it recorded is still judged below)
+                    exp = [c_ for c_ in exp if c_[0] != "collect"]
+                    got_calls = [c_ for c_ in got_calls if c_[0] != "collect"]
+                if not _cmp(res, names[n], got_calls, exp, {"mode": mode, "dt": sc["dt"], "start": sc["start"], "stop": sc["stop"]}):
                     break
                 keys = sorted(m.data_collector.agent_statistics.keys())
-                want = sorted({c[1] for c in exp if c[0] == "collect"})
+                want = want_times
                 if keys != want:
                     res.violate("C12.statistics-times", {"scenario": names[n], "got": keys[:6], "expected": want[:6]})
                 log.add("calls", n, m.world.calls)
